@@ -107,8 +107,10 @@ reg("C05",
     gen=lambda seed, tier: (P.gen_history_programs(G.Rng(seed + 5), N(tier, 60, 600), maxlen=N(tier, 14, 40)) +
                             P.gen_bucket_programs(G.Rng(seed + 51), N(tier, 60, 600)) +
                             P.gen_shared_removal_programs(G.Rng(seed + 52), N(tier, 20, 200)) +
-                            P.gen_key_matrix_programs(G.Rng(seed + 53))),
-    monitors=[lambda rr: (P.mon_bucket(rr) if "damage" in rr.prog.tags else
+                            P.gen_key_matrix_programs(G.Rng(seed + 53)) +
+                            P.gen_attach_rewrite_programs(G.Rng(seed + 55))),
+    monitors=[lambda rr: (P.mon_attach(rr) if "attach" in rr.prog.tags else
+                          P.mon_bucket(rr) if "damage" in rr.prog.tags else
                           P.mon_shared_removal(rr) if "removals" in rr.prog.tags else P.mon_history(rr))],
     extra=lambda seed, tier, flavours: LG.leg_skeleton(
         P.gen_history_programs(G.Rng(seed + 54), N(tier, 4, 20), maxlen=8), flavours[0]),
@@ -138,9 +140,11 @@ reg("C10",
     gen=lambda seed, tier: (P.gen_history_programs(G.Rng(seed + 10), N(tier, 40, 400), maxlen=N(tier, 14, 40)) +
                             P.gen_history_programs(G.Rng(seed + 101), N(tier, 40, 400), maxlen=N(tier, 14, 40), full=True) +
                             P.gen_shared_removal_programs(G.Rng(seed + 102), N(tier, 30, 300)) +
-                            P.gen_foreign_listing_programs(G.Rng(seed + 103))),
+                            P.gen_foreign_listing_programs(G.Rng(seed + 103)) +
+                            P.gen_block_boundary_programs(G.Rng(seed + 104))),
     monitors=[lambda rr: (P.mon_shared_removal(rr) if "removals" in rr.prog.tags else
                           P.mon_list_agrees_with_lookup(rr) if rr.prog.tags.get("listing_only") else
+                          P.mon_bucket(rr) if "bucket" in rr.prog.tags else
                           P.mon_history(rr) + P.mon_list_agrees_with_lookup(rr))],
     nontrivial=lambda rr: has(rr, ("list",), ("ok",)),
     rule="as C05 and C09 (histories with remove, remove_hash, remove_fully, clear over keys that share content); every "
@@ -192,15 +196,17 @@ reg("C14",
          "every syscall class of a sync / async write: once the call has returned, the temp area holds no file")
 
 reg("C11",
-    gen=lambda seed, tier: P.gen_metadata_programs(G.Rng(seed + 11), N(tier, 150, 2000)),
-    monitors=[P.mon_metadata],
+    gen=lambda seed, tier: (P.gen_metadata_programs(G.Rng(seed + 11), N(tier, 150, 2000)) +
+                            P.gen_attach_rewrite_programs(G.Rng(seed + 111))),
+    monitors=[lambda rr: P.mon_attach(rr) if "attach" in rr.prog.tags else P.mon_metadata(rr)],
     nontrivial=lambda rr: has(rr, ("metadata",), ("ok",)),
     rule="programs: one write through write / streamed writer / index insert with explicit or default time, metadata "
          "(type-directed JSON without floats), raw metadata and size; lookups in both flavours and listing compared "
          "field by field with what was supplied")
 
 reg("C06",
-    gen=lambda seed, tier: P.gen_bucket_programs(G.Rng(seed + 6), N(tier, 150, 3000)),
+    gen=lambda seed, tier: (P.gen_bucket_programs(G.Rng(seed + 6), N(tier, 150, 3000)) +
+                            P.gen_block_boundary_programs(G.Rng(seed + 61))),
     monitors=[P.mon_bucket],
     nontrivial=lambda rr: rr.prog.tags.get("damage", "undamaged") != "undamaged",
     rule="programs: a bucket file produced by the Python reference encoder (1-5 records, tombstones, foreign-key records, "
@@ -209,8 +215,11 @@ reg("C06",
          "both flavours and listing before and after one further append through the library, judged by the reference decoder")
 
 reg("C17",
-    gen=lambda seed, tier: P.gen_layout_programs(G.Rng(seed + 17), N(tier, 80, 800)),
-    monitors=[P.mon_layout],
+    gen=lambda seed, tier: (P.gen_layout_programs(G.Rng(seed + 17), N(tier, 80, 800)) +
+                            P.gen_attach_rewrite_programs(G.Rng(seed + 171)) +
+                            P.gen_block_boundary_programs(G.Rng(seed + 172))),
+    monitors=[lambda rr: (P.mon_attach(rr) if "attach" in rr.prog.tags else
+                          P.mon_bucket(rr) if "bucket" in rr.prog.tags else P.mon_layout(rr))],
     nontrivial=lambda rr: has(rr, ("dump",), ("ok",)),
     rule="direction 1: library writes entries with explicit times, the dumped tree is compared byte for byte with the "
          "tree the Python reference encoder predicts; direction 2: the reference encoder writes a cache, the library "
@@ -300,12 +309,13 @@ reg("C03",
          "distinct = distinct (op, result-class) sequences / syscall skeletons / post-kill trees / fault classes")
 
 reg("C04",
-    gen=lambda seed, tier: P.gen_bucket_programs(G.Rng(seed + 4), N(tier, 100, 2000)),
-    monitors=[P.mon_bucket],
+    gen=lambda seed, tier: (P.gen_bucket_programs(G.Rng(seed + 4), N(tier, 100, 2000)) +
+                            P.gen_attach_rewrite_programs(G.Rng(seed + 43))),      # "later writes ... become visible"
+    monitors=[lambda rr: P.mon_attach(rr) if "attach" in rr.prog.tags else P.mon_bucket(rr)],
     extra=lambda seed, tier, flavours: merge(
         LG.leg_kill_sweep(LG.kill_cases(G.Rng(seed + 41), N(tier, 6, 40)), flavours[0], max_points=N(tier, 16, 200)),
         LG.leg_fault_injection(LG.fault_cases_writes(G.Rng(seed + 42)), flavours[0], tier)),
-    nontrivial=lambda rr: rr.prog.tags.get("damage", "").startswith(("last record cut", "record")),
+    nontrivial=lambda rr: rr.prog.tags.get("damage", "").startswith(("last record cut", "record")) or "attach" in rr.prog.tags,
     rule="(a) torn appends: reference-encoded buckets with a record cut at every sampled byte length (incl. inside "
          "multi-byte UTF-8), lookups in both flavours, a further append, lookups again; (b) kill sweep over keyed writes, "
          "overwrites, index inserts with non-ASCII metadata and removals: SIGKILL at every mutating syscall, then a fresh "
